@@ -106,14 +106,18 @@ def prepare_crate(repo):
     return crate
 
 
-def cargo_build(repo, release, bins):
+def cargo_build(repo, release, bins, features=None):
     """Builds the probe binaries; returns ({bin: path}, rust_cc rlib path, deps dir)."""
     crate = prepare_crate(repo)
     tdir = target_dir(repo)
     env = dict(os.environ)
     env["CARGO_NET_OFFLINE"] = "true"
     env["RUSTFLAGS"] = "--cfg rust_cc_verif"
+    if features:
+        tdir = tdir + "-" + "-".join(features)
     cmd = ["cargo", "build", "--offline", "--target-dir", tdir, "--message-format=json"]
+    if features:
+        cmd += ["--features", ",".join(features)]
     if release:
         cmd.append("--release")
     for b in bins:
